@@ -236,8 +236,10 @@ Section WithStringHash.
     | _ => 1618033
     end.
 
-  (* lib/time Time.Hash / Duration.Hash on the int64 nanosecond count *)
-  Definition hash_i64 (ns : Z) : Z := Z.lxor (u32 ns) (u32 (ns / 4294967296)).
+  (* lib/time Time.Hash / Duration.Hash on the int64 nanosecond count; Time.UnixNano
+     of an instant outside the int64 range is the exact count wrapped to int64 *)
+  Definition wrap_i64 (z : Z) : Z := (z + 9223372036854775808) mod 18446744073709551616 - 9223372036854775808.
+  Definition hash_i64 (ns : Z) : Z := let n := wrap_i64 ns in Z.lxor (u32 n) (u32 (n / 4294967296)).
 
   Definition hash_atom (a : atom) : Z :=
     match a with
